@@ -165,6 +165,12 @@ def s01_iterator_discipline(ctx):
                             if rt[0] == 'field' and str(rt[2]) == '0' and _strip(rt[1])[0] == 'call' and _strip(rt[1])[4].endswith('::size_hint'):
                                 continue
                             r.violate(key + '|differs-from-size_hint', '%s::%s returns %s, size_hint reports `%s`' % (short, name, tree_str(pf.ret)[:60], rfield), b.file, b.line)
+                else:
+                    # any other override of a provided method (fold, for_each, sum, ...): a traversal of its own. Whether it visits exactly the
+                    # elements still to come is slot arithmetic on runtime values; it is listed, not decided (and not reported).
+                    uses_next = any(tr[4].endswith('::next') for blk, tr, t in b.calls_trees()) if hasattr(b, 'calls_trees') else False
+                    r.undecided.append('%s::%s overrides a provided iterator method with a traversal of its own%s: that it visits exactly the remaining '
+                                       'elements is not decided' % (short, name, ' (built on next())' if uses_next else ''))
     r.floor('window iterators', 2, n)
     r.info['other_exact_size_iterators_listed_only'] = info_only
     return r
